@@ -230,6 +230,25 @@ def verify_statics(run):
     run.add(static("library.Representation.repr_ndarray/every_element_through_repr1", assigns == ["', '.join((self.repr1(y, level) for y in x))"],
                    f"assignments to `elements`: {assigns} (every element is printed by repr1, so that inf/nan get the alias prefix at any position)", fn="library.Representation.repr_ndarray",
                    meta={"replay": {"module": "contracts.repr_native", "func": "replay_array_repr", "kwargs": {}, "vars": {}}}))
+    # reprlib truncates containers at its max* limits (4 entries for a dict by default): every container limit must be raised, or a large
+    # collection is printed with a literal `...` that is not Python
+    ri = src.func("library", "Representation.__init__")
+    run.under_contract("library", "Representation.__init__", ri)
+    raised = sorted({ast.unparse(n.target)[5:] for n in ast.walk(ri) if isinstance(n, ast.AugAssign) and isinstance(n.op, ast.Mult) and ast.unparse(n.target).startswith("self.max")}
+                    | {ast.unparse(n.targets[0])[5:] for n in ast.walk(ri) if isinstance(n, ast.Assign) and ast.unparse(n.targets[0]).startswith("self.max")})
+    need = ["maxarray", "maxdeque", "maxdict", "maxfrozenset", "maxlist", "maxlong", "maxother", "maxset", "maxstring", "maxtuple"]
+    missing = [x for x in need if x not in raised]
+    loops = [ast.unparse(n) for n in ast.walk(ri) if isinstance(n, ast.For)]
+    run.add(static("library.Representation.__init__/every_reprlib_limit_is_raised", not missing and not loops, f"limits set in the constructor: {raised}; missing: {missing}; loops (not analysed): {len(loops)}",
+                   fn="library.Representation.__init__", meta={"replay": {"module": "contracts.repr_native", "func": "replay_large_collections", "kwargs": {}, "vars": {}}}))
+    # the import header of the encapsulated export is computed at export time from the CURRENT alias (nothing cached in the exporter object)
+    pe_init, enc = src.func("exporter", "PythonExporter.__init__"), src.func("exporter", "PythonExporter.encapsulate")
+    run.under_contract("exporter", "PythonExporter.encapsulate", enc)
+    cached = [ast.unparse(n)[:80] for n in ast.walk(pe_init) if isinstance(n, ast.Call) and ("import_statement" in ast.unparse(n.func) or "package_of" in ast.unparse(n.func))] \
+        + [ast.unparse(n)[:80] for n in ast.walk(pe_init) if isinstance(n, ast.Attribute) and ast.unparse(n).startswith("settings.")]
+    at_export = any(isinstance(n, ast.Call) and ast.unparse(n.func) == "representation.import_statement" for n in ast.walk(enc))
+    run.add(static("exporter.PythonExporter/import_header_computed_at_export_time", not cached and at_export, f"settings-dependent values computed in the constructor: {cached}; encapsulate() calls representation.import_statement(): {at_export}",
+                   fn="exporter.PythonExporter.encapsulate", meta={"replay": {"module": "contracts.repr_native", "func": "replay_exporter_reuse", "kwargs": {}, "vars": {}}}))
     ei = src.func("engine", "Engine.__init__")
     run.under_contract("engine", "Engine.__init__", ei)
     loops = [ast.unparse(n) for n in ast.walk(ei) if isinstance(n, ast.For)]
@@ -301,6 +320,10 @@ def build(run):
                 bound="Discrete terms and arrays whose rows contain +-inf / NaN / plain numbers at every position x aliases fl, '', *, fuzzy: eval(repr) after the import statement, equal values and repr")
     run.bounded("engine.Engine.__init__/rebuilt_engine_references.runtime", "contracts.repr_native", "replay_rebuild_references", [dict(seed=run.seed)],
                 bound="an engine with Function and Linear terms in an input variable and in an output variable, rebuilt from repr and from the encapsulated export under 3 aliases: bit-identical outputs on 5 input rows")
+    run.bounded("library.Representation/large_collections.runtime", "contracts.repr_native", "replay_large_collections", [dict(seed=run.seed)],
+                bound="a Function term with 12 variables, a Discrete term with 40 pairs, a Linear term with 30 coefficients, a variable with 25 terms, a rule block with 30 rules: eval(repr) under aliases fl and *")
+    run.bounded("exporter.PythonExporter/exporter_object_reused_across_aliases.runtime", "contracts.repr_native", "replay_exporter_reuse", [dict(seed=run.seed)],
+                bound="one PythonExporter object (plain and encapsulated) created under one alias and used under the four aliases: the export executes after its own first line / the import statement")
     for fid, (cls, name) in KNOWN.items():
         others = [c for c, _ in KNOWN.values() if c != cls]
         run.bounded_known(name, N_, "replay_python_roundtrip", dict(seed=run.seed, budget=200, only_class=cls, skip_classes=others), fid)
